@@ -265,14 +265,14 @@ var randMethodsOnGlobal = map[string]bool{"Int": true, "Intn": true, "Int31": tr
 	"Float32": true, "Float64": true, "Perm": true, "Shuffle": true, "Uint32": true, "Uint64": true, "NormFloat64": true, "ExpFloat64": true, "Seed": true, "Read": true}
 
 // enumerateSites lists all sites of the anchored packages.
-func enumerateSites(root string) ([]mapSite, error) {
+func enumerateSites(root string) ([]mapSite, *repoImporter, error) {
 	fset := token.NewFileSet()
 	ri := &repoImporter{root: root, fset: fset, std: importer.ForCompiler(fset, "source", nil),
 		cache: map[string]*types.Package{}, infos: map[string]*types.Info{}, files: map[string][]*ast.File{}}
 	var sites []mapSite
 	for _, rel := range c08Packages {
 		if _, err := ri.load(rel); err != nil {
-			return nil, fmt.Errorf("%s: %w", rel, err)
+			return nil, nil, fmt.Errorf("%s: %w", rel, err)
 		}
 		info := ri.infos[rel]
 		files := ri.files[rel]
@@ -375,13 +375,168 @@ func enumerateSites(root string) ([]mapSite, error) {
 			sites[i].ID = fmt.Sprintf("%s'%d", sites[i].ID, n)
 		}
 	}
-	return sites, nil
+	return sites, ri, nil
+}
+
+// ---------- package-level state ----------
+//
+// A package-level variable lives as long as the process: if it is (or points
+// to) something that a run can change, one run can influence the next one in
+// the same process. Listed: every package-level variable of the anchored
+// packages whose type contains a pointer, map, slice, channel, function or
+// interface ("ref"), and every other package-level variable that is assigned
+// after its declaration ("value,written"). Flags: "written" = some statement
+// in the anchored packages assigns to the variable or stores through an
+// expression rooted at it (v = …, v.f = …, v[i] = …, *v = …, v++, delete(v,…),
+// clear(v)); "addr" = its address is taken. Aliases are not followed (a store
+// through a local copy of the pointer is not seen): the table says which
+// variables exist and how they are used directly; coq/Props/C08.v must give
+// each one a reason why it carries no state from run to run.
+
+type stateVar struct {
+	ID    string
+	Flags string
+	Typ   string
+}
+
+func hasRef(t types.Type, seen map[types.Type]bool) bool {
+	if seen[t] {
+		return false
+	}
+	seen[t] = true
+	switch u := t.Underlying().(type) {
+	case *types.Basic:
+		return u.Kind() == types.UnsafePointer
+	case *types.Struct:
+		for i := 0; i < u.NumFields(); i++ {
+			if hasRef(u.Field(i).Type(), seen) {
+				return true
+			}
+		}
+		return false
+	case *types.Array:
+		return hasRef(u.Elem(), seen)
+	}
+	return true // pointer, map, slice, chan, func, interface, type parameter
+}
+
+func rootObj(info *types.Info, e ast.Expr) types.Object {
+	for {
+		switch x := e.(type) {
+		case *ast.ParenExpr:
+			e = x.X
+		case *ast.StarExpr:
+			e = x.X
+		case *ast.IndexExpr:
+			e = x.X
+		case *ast.SliceExpr:
+			e = x.X
+		case *ast.SelectorExpr:
+			if id, ok := x.X.(*ast.Ident); ok {
+				if _, isPkg := info.Uses[id].(*types.PkgName); isPkg {
+					return info.Uses[x.Sel]
+				}
+			}
+			e = x.X
+		case *ast.Ident:
+			if o := info.Uses[x]; o != nil {
+				return o
+			}
+			return info.Defs[x]
+		default:
+			return nil
+		}
+	}
+}
+
+func enumerateState(ri *repoImporter) []stateVar {
+	written := map[types.Object]bool{}
+	addr := map[types.Object]bool{}
+	isPkgVar := func(o types.Object) bool {
+		v, ok := o.(*types.Var)
+		return ok && v.Pkg() != nil && v.Parent() == v.Pkg().Scope()
+	}
+	mark := func(m map[types.Object]bool, info *types.Info, e ast.Expr) {
+		if o := rootObj(info, e); o != nil && isPkgVar(o) {
+			m[o] = true
+		}
+	}
+	for _, rel := range c08Packages {
+		info := ri.infos[rel]
+		for _, f := range ri.files[rel] {
+			ast.Inspect(f, func(n ast.Node) bool {
+				switch x := n.(type) {
+				case *ast.AssignStmt:
+					if x.Tok != token.DEFINE {
+						for _, l := range x.Lhs {
+							mark(written, info, l)
+						}
+					}
+				case *ast.IncDecStmt:
+					mark(written, info, x.X)
+				case *ast.RangeStmt:
+					if x.Tok == token.ASSIGN {
+						if x.Key != nil {
+							mark(written, info, x.Key)
+						}
+						if x.Value != nil {
+							mark(written, info, x.Value)
+						}
+					}
+				case *ast.UnaryExpr:
+					if x.Op == token.AND {
+						mark(addr, info, x.X)
+					}
+				case *ast.CallExpr:
+					if id, ok := x.Fun.(*ast.Ident); ok && (id.Name == "delete" || id.Name == "clear") && len(x.Args) > 0 {
+						if _, isBuiltin := info.Uses[id].(*types.Builtin); isBuiltin {
+							mark(written, info, x.Args[0])
+						}
+					}
+				}
+				return true
+			})
+		}
+	}
+	var out []stateVar
+	for _, rel := range c08Packages {
+		pkg := ri.cache["evy:"+rel]
+		if pkg == nil {
+			continue
+		}
+		pkgName := rel
+		if rel == "." {
+			pkgName = "main"
+		}
+		for _, name := range pkg.Scope().Names() { // sorted
+			v, ok := pkg.Scope().Lookup(name).(*types.Var)
+			if !ok {
+				continue
+			}
+			ref := hasRef(v.Type(), map[types.Type]bool{})
+			if !ref && !written[v] {
+				continue
+			}
+			flags := "value"
+			if ref {
+				flags = "ref"
+			}
+			if written[v] {
+				flags += ",written"
+			}
+			if addr[v] {
+				flags += ",addr"
+			}
+			out = append(out, stateVar{ID: pkgName + "." + name, Flags: flags, Typ: types.TypeString(v.Type(), func(p *types.Package) string { return p.Name() })})
+		}
+	}
+	return out
 }
 
 func c08coqStr(s string) string { return `"` + strings.ReplaceAll(s, `"`, `""`) + `"` }
 
 func genMapSites(dir string) error {
-	sites, err := enumerateSites(c08repoRoot())
+	sites, ri, err := enumerateSites(c08repoRoot())
 	if err != nil {
 		return err
 	}
@@ -421,6 +576,16 @@ func genMapSites(dir string) error {
 		}
 		first = false
 		fmt.Fprintf(&b, "  (%s, %s)  (* %s *)", c08coqStr(s.ID), c08coqStr(s.Expr), s.File)
+	}
+	b.WriteString("\n].\n\n")
+	b.WriteString("(* package-level variables that could carry state from one run to the next in the same process:\n")
+	b.WriteString("   (id, flags) with flags = ref|value [,written] [,addr]  — see harness/gen_mapsites.go *)\n")
+	b.WriteString("Definition package_state_sites : list (string * string) := [\n")
+	for i, v := range enumerateState(ri) {
+		if i > 0 {
+			b.WriteString(";\n")
+		}
+		fmt.Fprintf(&b, "  (%s, %s)  (* %s *)", c08coqStr(v.ID), c08coqStr(v.Flags), strings.ReplaceAll(v.Typ, "*", "^"))
 	}
 	b.WriteString("\n].\n\n")
 	// parseProgram / NewEvaluator copy builtins.Globals into the scope under the
